@@ -345,6 +345,26 @@ fn c16_prefix() {
             },
         }
     }}}
+    // the block prefix is put in front of EVERY line of the block verbatim, blank separator lines included (trailing white space of the prefix kept)
+    for d in &decs { for w in [12usize, 30] {
+        let lead = |l: &str, p: &str| -> bool { l.starts_with(p) };
+        let (dq, dh) = (d.clone(), d.clone());
+        cases += 2;
+        if let Ok(Ok(s)) = panic::catch_unwind(move || config::with_decorator(dq).string_from_read("<blockquote><p>aa bb</p><p>cc</p></blockquote>".as_bytes(), w)) {
+            for l in s.lines() { if !lead(l, d.quote) { found("c16_prefix", &format!("width={} quote={:?} html=<blockquote><p>aa bb</p><p>cc</p></blockquote>", w, d.quote), &format!("line {:?} of the quote does not start with the quote prefix; output {:?}", l, s)); break; } }
+        }
+        let hp = d.header.repeat(2) + " ";
+        if let Ok(Ok(s)) = panic::catch_unwind(move || config::with_decorator(dh).string_from_read("<h2>aa bb<br><br>cc</h2>".as_bytes(), w)) {
+            for l in s.lines() { if !l.trim().is_empty() && !lead(l, &hp) || l.trim().is_empty() && !lead(l, hp.trim_end()) { found("c16_prefix", &format!("width={} header={:?} html=<h2>aa bb<br><br>cc</h2>", w, d.header), &format!("line {:?} of the heading does not start with the heading prefix; output {:?}", l, s)); break; } }
+        }
+        if !d.bullet.is_empty() {
+            let du = d.clone(); cases += 1;
+            let ind = " ".repeat(UnicodeWidthStr::width(d.bullet));
+            if let Ok(Ok(s)) = panic::catch_unwind(move || config::with_decorator(du).string_from_read("<ul><li><p>aa</p><p>bb</p></li></ul>".as_bytes(), w)) {
+                for (i, l) in s.lines().enumerate() { let p = if i == 0 { d.bullet } else { ind.as_str() }; if !lead(l, p) { found("c16_prefix", &format!("width={} bullet={:?} html=<ul><li><p>aa</p><p>bb</p></li></ul>", w, d.bullet), &format!("line {} {:?} of the item does not start with {:?}; output {:?}", i, l, p, s)); break; } }
+            }
+        }
+    }}
     println!("NONE {}", cases);
 }
 
@@ -502,6 +522,8 @@ fn main() {
         "bnd_c14" => bounded::bnd_c14(),
         "bnd_c20" => bounded::bnd_c20(),
         "bnd_doc" => bounded::bnd_doc(),
+        "c03_elements" => bounded::c03_elements(),
+        "c13_minwrap" => bounded::c13_minwrap(),
         "bnd_c08" => bounded::bnd_c08(),
         "bnd_c13" => bounded::bnd_c13(),
         "bnd_c18" => bounded::bnd_c18(),
